@@ -672,6 +672,9 @@ func (fr *frame) visitInstr(instr ssa.Instruction) continuation {
 		idx := fr.get(instr.Index).(*Term)
 		switch x := x.(type) {
 		case Slice:
+			if x.SymLen != nil {
+				panic(unsupported("indexing an opaque symbolic-length slice"))
+			}
 			i := r.boundedIndex(idx, len(x.S), instr.Index.Type(), "index")
 			fr.env[instr] = &x.S[i]
 		case *Value:
@@ -860,6 +863,9 @@ func (r *Run) sliceOp(fr *frame, instr *ssa.Slice, x, lo, hi, max Value) Value {
 		l, h := r.sliceBounds(lo, hi, n, n)
 		return get(l, h)
 	case Slice:
+		if x.SymLen != nil {
+			panic(unsupported("slicing an opaque symbolic-length slice"))
+		}
 		l, h := r.sliceBounds(lo, hi, len(x.S), cap(x.S))
 		m := cap(x.S)
 		if max != nil {
